@@ -308,7 +308,7 @@ pub fn fill_members(rng: &mut Rng, cfg: &GenCfg, n: usize, scale: usize, mapped:
         for k in 1..n { names.push(if absent(rng, cfg) { None } else { let same = rng.chance(1, 8) || src.starts_with('<') && rng.chance(2, 3); Some(uq.take(k, &desc, || if same { src.clone() } else { method_name(rng, cfg) }, true)) }); }
         let mut m = Method { names, comment: maybe_comment(rng, cfg), params: BTreeMap::new() };
         for _ in 0..rng.usize_in(0, cfg.max_params * scale) {
-            let idx = if cfg.big_indices && rng.chance(1, 30) { *rng.pick(&[255usize, 256, 65535]) } else if cfg.big_indices && rng.chance(1, 6) { rng.usize_in(9, 40) } else { rng.below(9) };
+            let idx = param_index(rng, cfg, 30);
             if m.params.contains_key(&idx) { continue; }
             let with_src = match cfg.param_src { ParamSrc::Always => true, ParamSrc::Never => false, ParamSrc::Mixed => rng.bool() };
             let mut names = vec![if with_src { Some(param_name(rng, cfg)) } else { None }];
@@ -390,11 +390,17 @@ pub fn gen_diff(rng: &mut Rng, cfg: &GenCfg) -> MapsDiff {
             let k = (method_name(rng, cfg), method_desc(rng, cfg, &srcs));
             let mut m = MethodDiff { name: act(rng, |r| method_name(r, cfg)), comment: comment_act(rng, cfg), params: BTreeMap::new() };
             for _ in 0..rng.usize_in(0, cfg.max_params * scale) {
-                m.params.insert(if cfg.big_indices && rng.chance(1, 5) { rng.usize_in(9, 40) } else { rng.below(9) }, ParamDiff { name: act(rng, |r| param_name(r, cfg)), comment: comment_act(rng, cfg) });
+                m.params.insert(param_index(rng, cfg, 25), ParamDiff { name: act(rng, |r| param_name(r, cfg)), comment: comment_act(rng, cfg) });
             }
             c.methods.insert(k, m);
         }
         d.classes.insert(src.clone(), c);
     }
     d
+}
+
+/// A parameter index: mostly 0..8, with `cfg.big_indices` sometimes 9..40 (past small tables) and, one time in `edge`, a value at the edge
+/// of a narrower integer type (a cast to u8 / i8 / u16 somewhere on the way must show). Used by every generator that draws such an index.
+pub fn param_index(rng: &mut Rng, cfg: &GenCfg, edge: u32) -> usize {
+    if cfg.big_indices && rng.chance(1, edge) { *rng.pick(&[127usize, 128, 255, 256, 257, 300, 65535, 65536]) } else if cfg.big_indices && rng.chance(1, 6) { rng.usize_in(9, 40) } else { rng.below(9) }
 }
